@@ -221,6 +221,12 @@ class ConstBytes:
         self.n = n
 
 
+class BytesVal:
+    """A byte slice whose length is the polynomial n (an element of an array of fields, ..)."""
+    def __init__(self, n):
+        self.n = n
+
+
 class TupleVal:
     def __init__(self, items):
         self.items = items
@@ -296,6 +302,13 @@ _WRITE_ALL = ("std::io::Write::write_all",)
 class Frame:
     def __init__(self):
         self.env = {}
+        self.top = None               # the function's body block: `if c { return x }` statements there are understood
+        self.in_return_branch = 0
+
+
+class _EarlyReturn(Exception):
+    def __init__(self, value):
+        self.value = value
 
 
 class Interp:
@@ -328,6 +341,7 @@ class Interp:
         self.depth += 1
         if self.depth > 12:
             raise Unsupported("call depth exceeded at %s" % fid)
+        fr.top = unblock(body) if isinstance(body, dict) else None
         try:
             return self.eval(fr, body)
         finally:
@@ -544,11 +558,16 @@ class Interp:
         return Opaque("binary %s" % op)
 
     def eval_quiet(self, fr, e):
+        w0, t0, env0 = self.written, len(self.trace), dict(fr.env)
         try:
             return self.eval(fr, e)
         except Unsupported:
             if any(n.get("k") == "Call" and self.is_writer_call(n) for n in walk_all(e)):
                 raise
+            # abandon the evaluation without leaving half-applied effects behind
+            self.written = w0
+            del self.trace[t0:]
+            fr.env = env0
             return Opaque("untracked")
 
     def e_Logical(self, fr, e):
@@ -573,12 +592,44 @@ class Interp:
         return self.eval(fr, e["e"])
 
     def e_Return(self, fr, e):
+        if getattr(fr, "in_return_branch", 0) > 0:
+            v = self.eval(fr, e["e"]) if e.get("e") is not None else UNIT
+            raise _EarlyReturn(v)
         raise Unsupported("explicit return at %s" % loc(e))
 
     def e_Closure(self, fr, e):
         return ("closure", e["def"], fr)
 
     def e_Block(self, fr, e):
+        stmts = e.get("stmts", [])
+        for i_, s in enumerate(stmts):
+            # `if c { ..; return x; }` as a statement of the function's own body: the function is
+            # `if c { ..; x } else { rest of the body }`
+            if e is fr.top and s.get("k") != "Let" and isinstance(s.get("e"), dict):
+                cand = unblock(s["e"])
+                if cand.get("k") == "If" and not cand.get("else") and cand["cond"].get("k") != "Let" and \
+                        any(y.get("k") == "Return" for y in walk_all(cand["then"])) and unblock(cand["then"]).get("ty") in ("!", None, "()") :
+                    ind = self.cond(fr, cand["cond"])
+                    rest = {"k": "Block", "stmts": stmts[i_ + 1:], "expr": e.get("expr"), "ty": e.get("ty")}
+
+                    def then_fn():
+                        fr.in_return_branch += 1
+                        try:
+                            self.eval(fr, cand["then"])
+                        except _EarlyReturn as r:
+                            return r.value
+                        finally:
+                            fr.in_return_branch -= 1
+                        raise Unsupported("branch with a return does not always return at %s" % loc(cand))
+
+                    def else_fn():
+                        old = fr.top
+                        fr.top = rest
+                        try:
+                            return self.e_Block(fr, rest)
+                        finally:
+                            fr.top = old
+                    return self.fork(fr, ind, then_fn, else_fn)
         for s in e.get("stmts", []):
             se = s.get("e") or s.get("init") or {}
             if any(x.split("::")[-1].startswith("debug_assert") for x in (se.get("exp") or [])):
@@ -739,6 +790,16 @@ class Interp:
                 binders.append(bnd)
             return tot, (lambda: [bb() for bb in binders])
         raise Unsupported("pattern kind %s in match" % k)
+
+    def opt_value_or_zero(self, item):
+        cases = self.opt_cases(item)
+        if cases is None:
+            return item
+        tot = Poly()
+        for i, v in cases:
+            if v[0] == "some":
+                tot = tot + i * as_poly(v[1], "optional length")
+        return tot
 
     def opt_cases(self, v):
         """[(indicator, ("none",) | ("some", payload))] for a computed Option value, None if it is not one."""
@@ -914,6 +975,50 @@ class Interp:
             clo = self.eval(fr, args[1])
             if isinstance(src, (PathVal, TupleVal)):
                 return ("mapped", src, clo)
+        if d.startswith("core::option::Option") and name == "map" and len(args) == 2:
+            optv = self.eval(fr, args[0])
+            f = self.eval(fr, args[1])
+            if isinstance(optv, PathVal):
+                a_ = Poly.atom(("some", optv.path))
+                cases = [(a_, ("some", PathVal(optv.path))), (ind_not(a_), ("none",))]
+            else:
+                cases = self.opt_cases(optv)
+            if cases is not None:
+                out = []
+                for i, v in cases:
+                    out.append((i, ("some", self.apply_fn(fr, f, [v[1]], args[1])) if v[0] == "some" else ("none",)))
+                return out[0][1] if len(out) == 1 else Cases(out)
+        if name in ("add", "sub") and tr.endswith(("ops::arith::Add", "ops::arith::Sub")) and len(args) == 2:
+            a_ = as_poly(self.eval(fr, args[0]), "operand")        # `usize + &usize` and the like
+            b_ = as_poly(self.eval(fr, args[1]), "operand")
+            return a_ + b_ if name == "add" else a_ - b_
+        if name == "flatten" and tr.endswith("iterator::Iterator") and len(args) == 1:
+            src = self.eval(fr, args[0])
+            if isinstance(src, TupleVal):
+                return ("flatten", src)
+        if name == "fold" and tr.endswith("iterator::Iterator") and len(args) == 3:
+            src = self.eval(fr, args[0])
+            acc = self.eval(fr, args[1])
+            f = self.eval(fr, args[2])
+            items = None
+            optional = False
+            if isinstance(src, tuple) and src and src[0] == "flatten":
+                items, optional = src[1].items, True
+            elif isinstance(src, TupleVal):
+                items = src.items
+            if items is not None:
+                for item in items:
+                    if optional and self.opt_cases(item) is not None:
+                        new = Poly()
+                        for i, v in self.opt_cases(item):
+                            if v[0] == "some":
+                                new = new + i * as_poly(self.apply_fn(fr, f, [acc, v[1]], args[2]), "fold step")
+                            else:
+                                new = new + i * as_poly(acc, "fold accumulator")
+                        acc = new
+                    else:
+                        acc = self.apply_fn(fr, f, [acc, item], args[2])
+                return acc
         if d.startswith("core::option::Option") and name == "map_or" and len(args) == 3:
             optv = self.eval(fr, args[0])
             dflt = self.eval(fr, args[1])
@@ -973,7 +1078,11 @@ class Interp:
         # crate-local functions: inline
         callee = self.F.fns.get(res)
         if callee is not None and fn.get("krate") == self.F.data["crate"]:
-            vals = [self.eval(fr, a) for a in args]
+            if res in ("common::utils::write_u8", "common::utils::write_u16", "common::utils::write_u32") and len(args) == 2:
+                # the value written does not influence how many bytes are written: whatever computes it is irrelevant here
+                vals = [self.eval(fr, args[0]), self.eval_quiet(fr, args[1])]
+            else:
+                vals = [self.eval(fr, a) for a in args]
             # which concrete types the callee's type parameters stand for at this call (for trait calls inside generic helpers)
             tm = {}
             for q, a in zip([q for q in callee["thir"]["params"]], args):
@@ -1057,7 +1166,17 @@ class Interp:
         raise Unsupported("cannot apply %r" % (f,))
 
     def e_Array(self, fr, e):
-        return TupleVal([self.eval(fr, x) for x in e["items"]])
+        items = []
+        for x in e["items"]:
+            ty = (x.get("ty") or "")
+            if "[u8" in ty or ty.endswith("str"):
+                try:
+                    items.append(BytesVal(self.length_of(fr, x)))     # an array of byte slices: keep each element's length
+                    continue
+                except Unsupported:
+                    pass
+            items.append(self.eval(fr, x))
+        return TupleVal(items)
 
     def e___val(self, fr, e):
         return e["v"]
@@ -1068,8 +1187,17 @@ class Interp:
         return Opaque("zst")
 
     def eval_sum(self, fr, e):
-        """Iterator::sum(Iterator::map(<iter over path>, closure))"""
+        """Iterator::sum(Iterator::map(<iter over path>, closure)), or the sum of a fixed array of lengths"""
         e = strip(e)
+        try:
+            direct = self.eval(fr, e)
+        except Unsupported:
+            direct = None
+        if isinstance(direct, TupleVal):
+            tot = Poly()
+            for item in direct.items:
+                tot = tot + as_poly(self.opt_value_or_zero(item), "array element")
+            return tot
         if e.get("k") == "Call" and e["fn"].get("name") == "map" and len(e["args"]) == 2:
             src = self.eval(fr, e["args"][0])
             clo = self.eval(fr, e["args"][1])
@@ -1105,6 +1233,8 @@ class Interp:
     def length_of_value(self, v, e, count_ok):
         if isinstance(v, ConstBytes):
             return Poly.const(v.n)
+        if isinstance(v, BytesVal):
+            return v.n
         if isinstance(v, Cases):
             tot = Poly()
             for ind, x in v.pairs:
